@@ -163,10 +163,6 @@ func knownShape(args []string, want interface{}, st *model.Store, pre preState, 
 				return "zadd-duplicate-member-in-one-command"
 			}
 		}
-	case "del":
-		if dupIn(a) {
-			return "del-duplicate-key-counted-twice"
-		}
 	case "decr", "decrby":
 		return "decr-documented-but-not-registered"
 	case "getrange":
